@@ -1,6 +1,6 @@
 SPECIFICATION Spec
 CONSTANTS
-  FAMSEL = {"full", "ring", "func1", "func2", "sim", "deep"}
+  FAMSEL = {"full", "ring", "func1", "func2", "sim", "twin", "deep"}
   MAXN = 4
   FULLN = 2
   LEAFS = {1, 2}
@@ -8,6 +8,7 @@ CONSTANTS
   BRANCH = 2
   DEPTHS = {1000, 10000, 100000}
   BIGDEPTHS = {1000000}
+  TWINMOD = 1
   VARIANT = "ok"
   ALG = FALSE
 INVARIANTS TypeOK ModelOK EmitCase
